@@ -148,6 +148,13 @@ class RowV:
         self.s = s
 
 
+class ComposedQ:
+    """a method of another object that is translated on its own and returns a quantity: `name` applied to the raw values of the
+    quantity arguments is the raw value of the result"""
+    def __init__(self, dim, name):
+        self.dim, self.name = dim, name
+
+
 class StrC:
     def __init__(self, v):
         self.v = v
@@ -459,6 +466,11 @@ class Evaluator:
         if isinstance(e, ast.Compare) and len(e.ops) == 1:
             a, b = self.ev(e.left, env), self.ev(e.comparators[0], env)
             op = e.ops[0]
+            if isinstance(a, IntC) and isinstance(b, IntC):
+                r = {ast.Eq: a.v == b.v, ast.NotEq: a.v != b.v, ast.Lt: a.v < b.v, ast.LtE: a.v <= b.v, ast.Gt: a.v > b.v, ast.GtE: a.v >= b.v}.get(type(op))
+                if r is None:
+                    raise Unsupported('comparison of constants')
+                return Cond('static', r)
             if isinstance(op, (ast.NotEq, ast.Eq)) and isinstance(a, StrC) and isinstance(b, StrC):
                 return Cond('static', (a.v == b.v) == isinstance(op, ast.Eq))
             if isinstance(op, (ast.NotEq, ast.Eq)):
@@ -642,6 +654,10 @@ class Evaluator:
                 m = self.method(head, tail)
                 if m is not None:
                     return self.apply(m, None, args, kw, env, head)
+            if isinstance(env.get(d), ComposedQ):
+                if not all(isinstance(a, Qty) for a in args):
+                    raise Unsupported('composed call with a non-quantity argument')
+                return Qty(env[d].dim, '(' + env[d].name + ''.join(' ' + a.raw for a in args) + ')')
             if isinstance(env.get(d), Opaque) and env[d].name.startswith('pair:'):
                 t = '(' + env[d].name[5:] + ''.join(' ' + num(a) for a in args) + ')'
                 return Tup([Num(t + '.1'), Num(t + '.2')])
@@ -1656,6 +1672,48 @@ def emit_loop_body(ev):
     return out
 
 
+def emit_init_trajectory(ev):
+    """`TrajectoryCalc._init_trajectory(shot_info)`: every scalar attribute it assigns, as a function of the raw values of the shot
+    (`Shot.barrel_elevation/azimuth` and `Ammo.get_velocity_for_temp` composed with their own translations; `get_calc_step()` and
+    `calc_stability_coefficient(atmo)` inlined); the three statements that prepare the drag curve are matched structurally"""
+    m = ev.method('TrajectoryCalc', '_init_trajectory')
+    if m is None:
+        raise Unsupported('_init_trajectory not found')
+    pins = ['self._table_data: List[DragDataPoint] = shot_info.ammo.dm.drag_table',
+            'self._curve: List[CurvePoint] = calculate_curve(self._table_data)',
+            'self.__mach_list: List[float] = _get_only_mach_data(self._table_data)']
+    pd = [ast.dump(ast.parse(x).body[0]) for x in pins]
+    body = [n for n in m.body if ast.dump(n) not in pd]
+    if len(body) != len(m.body) - 3:
+        raise Unsupported('_init_trajectory: the statements preparing the drag curve changed')
+    A = lambda x: Qty('Angular', x)    # noqa: E731
+    D = lambda x: Qty('Distance', x)   # noqa: E731
+    env = {'self.__class__': 'TrajectoryCalc', 'self._config.max_calc_step_size_feet': Num('cfg.maxCalcStep'),
+           'shot_info.ammo.dm.BC': Num('s.bc'), 'shot_info.look_angle': A('s.lookAngle'), 'shot_info.cant_angle': A('s.cantAngle'),
+           'shot_info.weapon.twist': D('s.twistRaw'), 'shot_info.weapon.sight_height': D('s.sightHeightRaw'),
+           'shot_info.ammo.dm.length': D('s.lengthRaw'), 'shot_info.ammo.dm.diameter': D('s.diameterRaw'),
+           'shot_info.ammo.dm.weight': Qty('Weight', 's.weightRaw'),
+           'shot_info.barrel_elevation': A('(barrel_elevation s.lookAngle s.cantAngle s.zeroElevation s.relativeAngle)'),
+           'shot_info.barrel_azimuth': A('(barrel_azimuth s.cantAngle s.zeroElevation s.relativeAngle)'),
+           'shot_info.atmo.altitude': D('s.atmo.altRaw'), 'shot_info.atmo.powder_temp': Qty('Temperature', 's.atmo.powderRaw'),
+           'shot_info.ammo.get_velocity_for_temp': ComposedQ('Velocity', 'velocity_for_temp s.ammo'),
+           'shot_info.atmo': Obj('Atmo', {'pressure': Qty('Pressure', 's.atmo.pressRaw'), 'temperature': Qty('Temperature', 's.atmo.tempRaw')})}
+    if ev.block(body, env) is not None:
+        raise Unsupported('_init_trajectory returns a value')
+    want = {'_bc', 'look_angle', 'twist', 'length', 'diameter', 'weight', 'barrel_elevation', 'barrel_azimuth', 'sight_height', 'cant_cosine',
+            'cant_sine', 'alt0', 'calc_step', 'muzzle_velocity', 'stability_coefficient'}
+    got = {k[5:] for k in env if k.startswith('self.') and not k.startswith('self._config') and k != 'self.__class__'}
+    if got != want:
+        raise Unsupported(f'_init_trajectory assigns {sorted(got ^ want)} differently from the model')
+    g = lambda k: num(env['self.' + k])    # noqa: E731
+    return ('/-- `_init_trajectory(shot_info)`: the projectile record, then (bc, alt0, muzzle velocity, sight height, cant cosine, cant sine,\n'
+            '    barrel azimuth, calc step, barrel elevation) -/\n'
+            'def init_trajectory (cfg : Model.Config α) (s : Model.ShotRaw α) : Model.Proj α × (α × α × α × α × α × α × α × α × α) :=\n'
+            f'  (⟨{g("twist")}, {g("length")}, {g("diameter")}, {g("weight")}, {g("stability_coefficient")}, {g("look_angle")}⟩,\n'
+            f'   ({g("_bc")}, {g("alt0")}, {g("muzzle_velocity")}, {g("sight_height")}, {g("cant_cosine")}, {g("cant_sine")}, {g("barrel_azimuth")}, '
+            f'{g("calc_step")}, {g("barrel_elevation")}))\n')
+
+
 def find_self_assign(ev, cls, meth, attr):
     m = ev.method(cls, meth)
     for n in ast.walk(m) if m else []:
@@ -1740,6 +1798,7 @@ def generate(repo: Path) -> str:
     group(['zero_start', 'zero_distance', 'zero_initial_error', 'zero_initial_count', 'zero_cond', 'zero_error', 'zero_missed',
            'zero_correct', 'zero_fails', 'zero_result'], lambda: emit_zero(ev))
     group(['loop_body'], lambda: emit_loop_body(ev))
+    group(['init_trajectory'], lambda: emit_init_trajectory(ev))
     group(['danger_half', 'danger_begin_danger_hit', 'danger_end_danger_hit'], lambda: emit_danger(ev))
     group(['interp_low', 'interp_low_value', 'interp_high', 'interp_high_value', 'interp_init', 'interp_cond', 'interp_in_segment',
            'interp_value', 'interp_goes_left', 'interp_left_move', 'interp_right_move', 'bcpoint_mach_of_v'], lambda: emit_interp(ev))
